@@ -345,3 +345,45 @@ def post_split_view(r):
         off = off + len(e[i]) + len(r.sep)
         i += 1
     return ok
+
+
+# ------------------------------------------------------------------------------------------ H1: format_matching / unformat_matching
+def matching_reference(r, remove):
+    """the state reached by calling apply_formatting / remove_formatting(fmt, m.start(), m.end()) for the first `count`
+    (all if negative) matches Python's re finds in base_str"""
+    ref = r.old_self.copy()
+    if r.regex:
+        pat = r.matchspec
+    else:
+        pat = re_escape(r.matchspec)
+    if r.match_case:
+        flags = 0
+    else:
+        flags = RE_IGNORECASE
+    fmt = r.format
+    if remove and (len(fmt) == 0 or None in fmt):
+        fmt = None
+    done = 0
+    for m in re_finditer(pat, ref._s, flags):
+        if r.count >= 0 and done >= r.count:
+            break
+        if remove:
+            ref.remove_formatting(fmt, m.start(), m.end())
+        else:
+            ref.apply_formatting(fmt, m.start(), m.end())
+        done += 1
+    return ref
+
+
+def post_format_matching(r):
+    return eq_value(r.self, matching_reference(r, False))
+
+
+def post_unformat_matching(r):
+    return eq_value(r.self, matching_reference(r, True))
+
+
+def post_apply_for_match(r):
+    ref = r.old_self.copy()
+    ref.apply_formatting(r.settings, r.match_object.start(r.group), r.match_object.end(r.group))
+    return eq_value(r.self, ref)
